@@ -93,7 +93,106 @@ def check_c09(pid, tier):
     return 1 if violations else 0
 
 
+def mux_cfg(n, script, err, mut="none", view=True, emit=False):
+    s = "INIT Init\nNEXT Next\n" + ("VIEW View\n" if view else "")
+    s += 'CONSTANTS\n Consumers = {%s}\n Script <- MCScript\n EndsWithError = %s\n Mut = "%s"\n' % (
+        ",".join('"c%d"' % i for i in range(1, n + 1)), "TRUE" if err else "FALSE", mut)
+    s += "INVARIANTS NoPanic Agreement SameAsSource ClosedOnce NoDeadlock\n"
+    if emit:
+        s += "CONSTRAINT EmitScript\n"
+    return s
+
+
+def mux_extra(script):
+    return "MCScript == <<%s>>\n" % ",".join('"%s"' % c for c in script)
+
+
+def check_c15(pid, tier):
+    t0 = time.time()
+    sd = vlib.seed()
+    binary = vlib.go_build_test("buf")
+    work = vlib.scratch("buf15")
+    quick = tier == "quick"
+    states = trans = 0
+    details = {"mux_models": [], "mutants_killed": {}}
+    scripts = []
+    shapes = [(2, ["x"], False), (2, ["x", "y"], True), (3, ["x"], False), (3, ["x", "y"], False), (3, [], True)]
+    if not quick:
+        shapes += [(3, ["x", "y"], True), (4, ["x"], False), (4, ["x", "y"], False)]
+    for n, script, err in shapes:
+        r = vlib.run_tlc("CloneMux", mux_cfg(n, script, err), extra=mux_extra(script), timeout=1500)
+        vlib.require_model_ok(r, "CloneMux %d %s" % (n, script))
+        states += r.distinct
+        trans += r.generated
+        details["mux_models"].append({"consumers": n, "script": script, "ends_with_error": err, "distinct_states": r.distinct, "transitions": r.generated})
+        # interleavings: exhaustive (every maximal path) for 2 consumers, simulated otherwise
+        hists = []
+        if n == 2:
+            rs = vlib.run_tlc("CloneMux", mux_cfg(n, script, err, view=False, emit=True), extra=mux_extra(script),
+                              marker_sink=lambda m, o: hists.append(o), timeout=1500)
+        else:
+            rs = vlib.run_tlc("CloneMux", mux_cfg(n, script, err, view=False, emit=True), extra=mux_extra(script), mode="simulate",
+                              sim_num=150 if quick else 2000, sim_depth=60, sim_seed=sd * 17 + n, workers=1,
+                              marker_sink=lambda m, o: hists.append(o), timeout=1500)
+        if not rs.ok:
+            raise Broken("CloneMux script generation failed: %s %s" % (rs.violated, rs.error))
+        seen = set()
+        for h in hists:
+            k = json.dumps(h)
+            if k not in seen:
+                seen.add(k)
+                scripts.append({"id": "n%d-%s-%s/%d" % (n, "".join(script), "err" if err else "eof", len(seen)), "n": n,
+                                "chunks": script, "err": err, "steps": h})
+    for mut in ["rearm_wrong", "close_while_waiting"]:
+        rm = vlib.run_tlc("CloneMux", mux_cfg(3, ["x", "y"], False, mut), extra=mux_extra(["x", "y"]), dump_trace=True, timeout=600)
+        if not rm.violated:
+            raise Broken("CloneMux mutant %s not killed" % mut)
+        details["mutants_killed"][mut] = rm.violated
+        st = vlib.cex_states(rm)
+        if st:
+            scripts.append({"id": "killer/" + mut, "n": 3, "chunks": ["x", "y"], "err": False, "steps": st[-1]["hist"]})
+    sp = os.path.join(work, "mux_scripts.ndjson")
+    vlib.write_ndjson(sp, scripts)
+    rc, out = vlib.run_harness(binary, "TestMux", {"BUF_SCRIPTS": sp, "BUF_OUT": work, "VERIF_SEED": sd,
+                                                   "BUF_FREE_RUNS": 300 if quick else 5000}, timeout=3000)
+    if rc != 0:
+        raise Broken("mux harness failed:\n" + out[-3000:])
+    # the buffer algebra
+    terms_path = os.path.join(work, "terms.ndjson")
+    fh = open(terms_path, "w")
+    ra = vlib.run_tlc("BufferAlgebra", "INIT Init\nNEXT Next\nCONSTANTS\n MaxOps = %d\nINVARIANTS Sane Emit\n" % (2 if quick else 3),
+                      raw_sink=lambda m, raw: fh.write(raw + "\n"), timeout=3000)
+    fh.close()
+    vlib.require_model_ok(ra, "BufferAlgebra")
+    states += ra.distinct
+    trans += max(ra.generated, ra.distinct)
+    rc, out = vlib.run_harness(binary, "TestAlgebra", {"BUF_CASES": terms_path, "BUF_OUT": work}, timeout=3000)
+    if rc != 0:
+        raise Broken("algebra harness failed:\n" + out[-3000:])
+    allp = os.path.join(work, "all.ndjson")
+    with open(allp, "w") as fh:
+        fh.write(open(os.path.join(work, "mux.ndjson")).read())
+        fh.write(open(os.path.join(work, "alg.ndjson")).read())
+    n_events, rejects, vstates = validate("CloneContractTrace", allp, pid, sd)
+    known = [k for k in vlib.load_known_findings() if k.get("property") == pid and k.get("status") == "open"]
+    violations = 0
+    for rj in rejects:
+        path = vlib.save_replay(pid, "s%d_%d" % (sd, violations), {"observation.json": rj["event"]})
+        violations += 1
+        print("VIOLATION property=%s replay=%s" % (pid, path))
+        log("  rejected observation: %s" % json.dumps(rj["event"])[:500])
+    cov = {"states": states, "transitions": trans, "traces_validated_against_impl": n_events,
+           "mux_scripts_replayed": len(scripts), "algebra_terms": ra.distinct, "model": details,
+           "trace_validator_states": vstates, "samples": scripts[:2]}
+    vlib.write_evidence(pid, tier, "model_checking", cov, time.time() - t0, violations,
+                        ["scripted interleavings are replayed with testing/synctest (a bubble in which everybody is blocked is reported as a deadlock); free-running runs use the Go scheduler",
+                         "tasks attached with WithTask are independent of the data (they do not consume a clone)"])
+    return 1 if violations else 0
+
+
 def check(pid, tier, replay=None):
     if pid == "C09":
         return check_c09(pid, tier)
+    if pid == "C15":
+        return check_c15(pid, tier)
     raise Broken("no check for " + pid)
